@@ -349,7 +349,17 @@ static cmplx_t rnd_cmplx(vh::Rng& r) {
     case 2:
         return {0.0, -1.0};
     case 3:
-        return {-0.0, r.logmag(1e-3, 1e3)};
+        //points on the axes, with either sign of the zero part
+        switch (r.below(4)) {
+        case 0:
+            return {-0.0, r.logmag(1e-3, 1e3)};
+        case 1:
+            return {r.logmag(1e-3, 1e3), 0.0};
+        case 2:
+            return {r.logmag(1e-3, 1e3), -0.0};
+        default:
+            return {0.0, r.logmag(1e-3, 1e3)};
+        }
     case 4: {
         const double m = std::fabs(r.logmag(1e-100, 1e100));
         const double p = r.uni(-3.14159, 3.14159);
